@@ -482,7 +482,11 @@ def evaluate__ceiling_and_floor_functions(self: XPathFunction, context: ta.Conte
             return arg
 
         assert isinstance(arg, (int, float, decimal.Decimal))
-        if self.symbol == 'floor':
+        if isinstance(arg, float):
+            # keep the sign for zero results: ceiling(-0.5) is -0.0 and floor(-0.0) is -0.0
+            value = math.floor(arg) if self.symbol == 'floor' else math.ceil(arg)
+            return type(arg)(math.copysign(value, arg))
+        elif self.symbol == 'floor':
             return type(arg)(math.floor(arg))
         else:
             return type(arg)(math.ceil(arg))
